@@ -57,8 +57,10 @@ class _TrioIdleCallbackInstrument(trio.abc.Instrument):
 
     def before_io_wait(self, timeout: float) -> None:
         if timeout > 0:
-            for idle_callback in list(self.idle_callbacks.values()):
-                idle_callback()
+            for handle, idle_callback in list(self.idle_callbacks.items()):
+                # a callback removed by an earlier one in this pass is not called
+                if handle in self.idle_callbacks:
+                    idle_callback()
 
 
 class TrioEventLoop(EventLoop):
